@@ -180,6 +180,7 @@ class Sim:
         self.snaps = {}       # name -> (array, snapshot)
         self.took = set()
         self.reapplied_after_take = False
+        self.equal_layouts = set()
         warnings.simplefilter("ignore")
         try:
             self.op = LO.build(self.sp)
@@ -239,6 +240,21 @@ class Sim:
                         self.r.fail("not-reproducible:%s" % self.sp["op"],
                                     "re-applying %s to the same input gave a different result (max diff %s)"
                                     % (which, np.max(np.abs(y - y0)) if y.shape == y0.shape else "shape"))
+            elif k == "reapply_equal":
+                # an EQUAL input held in another memory layout (copy, Fortran order, strided or reversed view)
+                if self.inputs:
+                    which, x, y0 = self.inputs[op["k"] % len(self.inputs)]
+                    x2 = _relayout(x, op["layout"])
+                    name = "equal%d" % len(self.snaps)
+                    self.snaps[name] = (x2, snap(x2))
+                    y = np.array(self._target(which)(x2))
+                    self.equal_layouts.add(op["layout"])
+                    sc = np.linalg.norm(np.asarray(y0, dtype=np.complex128).ravel()) + 1e-30
+                    if y.shape != y0.shape or not np.linalg.norm((y - y0).astype(np.complex128).ravel()) <= \
+                            (1e-4 if self.dt in ("complex64", "float32") else 1e-10) * sc:
+                        self.r.fail("equal-input-different-output:%s" % self.sp["op"],
+                                    "applying %s to an equal input held as a %s array gave a different result (max diff %s)"
+                                    % (which, op["layout"], np.max(np.abs(y - y0)) if y.shape == y0.shape else "shape"))
         except Exception as e:
             self.r.fail("raises:%s:%s" % (k, self.sp["op"]), "%s: %s" % (type(e).__name__, e.__cause__ or e))
             return
@@ -262,8 +278,26 @@ class Sim:
             self.r.label("reapply-after-take")
         if any(o.get("layout", "c") != "c" for o in self.case["ops"]):
             self.r.label("view-input")
+        for l in sorted(self.equal_layouts):
+            self.r.label("equal-input:" + l)
         self.r.sig = LO.sig(self.sp) + "|" + ",".join(o["op"] for o in self.case["ops"])
         return self.r
+
+
+def _relayout(x, layout):
+    """An array equal to x (same shape, dtype, values) held in another memory layout."""
+    x = np.asarray(x)
+    if layout == "fortran":
+        return np.asfortranarray(x.copy())
+    if layout == "strided" and x.ndim >= 1:
+        big = np.zeros(list(x.shape[:-1]) + [2 * x.shape[-1] + 1], dtype=x.dtype)
+        big[..., 1::2] = x
+        return big[..., 1::2]
+    if layout == "reversed" and x.ndim >= 1:
+        return np.ascontiguousarray(x[::-1])[::-1]
+    if layout == "transposed-base" and x.ndim >= 2:
+        return np.ascontiguousarray(x.T).T
+    return np.array(x, copy=True, order="C")
 
 
 def check_history(case):
@@ -325,6 +359,11 @@ def make_machine(col):
         @rule(k=st.integers(0, 50))
         def reapply(self, k):
             self._do({"op": "reapply", "k": k})
+
+        @precondition(lambda self: self.sim is not None and len(self.sim.inputs) > 0)
+        @rule(k=st.integers(0, 50), layout=st.sampled_from(["copy", "fortran", "strided", "reversed", "transposed-base"]))
+        def reapply_equal(self, k, layout):
+            self._do({"op": "reapply_equal", "k": k, "layout": layout})
 
         def teardown(self):
             if self.sim is not None and not self.done:
